@@ -209,6 +209,9 @@ def _c20():
         ("R-PANIC", "declared lengths from the wire reach arithmetic and slicing only when bounded", rules_panic.make_taint_rule({"wire"}, rules_panic.PANIC_KINDS, "wire panic sinks")),
         ("R-ALLOC", "the parser never reserves memory according to a declared length it has not received", rules_panic.make_taint_rule({"wire"}, ("alloc",), "wire allocation sinks")),
         ("R-RECURSE", "nested aggregates are parsed under a depth limit", rules_panic.rule_recurse),
+        ("R-CODEC-TABLE", "the type byte the serializer writes for each variant is the byte for which the parser builds that variant; unknown bytes are errors; null forms mirrored; no unwrap on the parse path", rules_conn.rule_codec_table),
+        ("R-CODEC-POS", "the incremental parser advances its position only on the Ok(Some) edge (restart-from-frame-start, the mechanism behind chunking independence)", rules_conn.rule_codec_pos),
+        ("R-CRLF", "line-framed variants cannot be broken by payload bytes", rules_conn.rule_crlf),
     ]
 
 
@@ -242,15 +245,41 @@ CLAIMS = {
             "not_decided": "that each reply value and resulting dataset equal the Redis reference (index arithmetic, NX/XX truth tables, glob semantics)."},
     "C02": {"decided": "Lazy expiry: every shard-map lookup in an engine method flows into is_expired(); the sweeper deletes only under a re-check of the stored deadline in the same lock scope; the deadline is written only by dedicated setters called from dedicated TTL functions; inserts store a fresh StoredValue or (RENAME) the removed one; expiry index updated with the deadline.",
             "not_decided": "real-time exactness of Instant comparisons, TTL reply rounding, sweeper scheduling."},
+    "C03": {"decided": "Every list/set/hash command has a dispatcher arm with the right effect class and the storage primitive its semantics need (LPUSH front insertion, RPOP back removal, ...); failure atomicity (no refusal after a mutation) in handlers and engine methods; every shrinking engine method has an emptiness test followed by removal of the key.",
+            "not_decided": "order/index arithmetic, LREM direction, set algebra results, random-pick distribution."},
+    "C04": {"decided": "No score reaches SkipList::insert without a dominating NaN refusal of that value; refused multi-member ZADD adds nothing; key index, node links and length stay in step (pairing, re-score unlinks before linking, who-writes length); removing the last member removes the key; dispatcher arms with the right skip-list primitive.",
+            "not_decided": "correctness of the tower pointer surgery, comparator totality on -0/inf, agreement of rank and range queries (need execution or a proof of the data structure)."},
     "C05": {"decided": "Error discipline and reply counting of the connection loop on all CFG paths: an Err from executing a frame is converted to an error reply unless Connection/Io; exactly one reply push per loop iteration and no mid-batch exit; protocol errors are queued/answered and the connection closed; line-framed reply payloads pass a CR/LF filter; nothing reachable from EXEC yields NoResponse.",
             "not_decided": "TCP segmentation independence of the whole I/O state machine, reply order under partial writes."},
+    "C06": {"decided": "Interprocedural, type-restricted taint from client/wire numbers (str::parse, RespFrame::Integer) to panicking arithmetic (MIR overflow/neg/div/bounds asserts), indexing/slicing APIs, allocation sizes, float->Duration and clock arithmetic, with bounds derived by abstract interpretation over dominating comparisons, min/max/clamp and casts; bounded parser recursion; no client-timed sleep; script execution bound; lock re-entrancy.",
+            "not_decided": "absence of all panics (only input-tainted ones), memory exhaustion by legitimately large data, liveness under slow peers; bounds are hi/lo abstractions, not exact ranges."},
     "C07": {"decided": "Queue gate dominance in process_frame, FIFO-only use of the queue, one result per queued command with no early exit, transaction-state reset on every exit of EXEC/DISCARD (and before execution), no event-loop re-entry from EXEC, identity of the connection handed to re-dispatched commands.",
             "not_decided": "isolation against non-command threads (sweeper, replica apply); equality of each queued command's reply with its stand-alone reply."},
-    "C08": {"decided": "Every dataset mutation site in the storage engine has a mark_modified of the same key (provenance) in the same function; was_modified_since compares the stamp and consults expiry; register_watch order; the abort test dominates execution and abort edges execute nothing; EXEC/DISCARD/UNWATCH clear the watch set on all paths.",
+    "C08": {"decided": "Every dataset mutation site in the storage engine (incl. expiry purges) has a mark_modified of the same key (provenance) in the same function; was_modified_since compares the stamp and consults expiry; register_watch order; the abort test dominates execution and abort edges execute nothing; EXEC/DISCARD/UNWATCH clear the watch set on all paths.",
             "not_decided": "no-false-abort for hash collisions; timing of expiry vs EXEC."},
+    "C09": {"decided": "Writer/reader table agreement in rdb.rs: variant->opcode->constructed variant is the identity (both writers); length-class bounds, tags, masks, shifts and byte order consistent with the decoder; per-variant sequence of primitive writes equals the sequence of reads (loop nesting included); count = len() of the iterated collection; no in-band type decision; records with expiry never loaded persistent; database selector flow.",
+            "not_decided": "equality of the loaded dataset for every dataset (needs execution), TTL clock granularity, consumer groups (not persisted)."},
+    "C10": {"decided": "save() writes only a temp path and renames on the success continuation after a successful flush; single-writer guard held across the write; BGSAVE flag cleared on every exit incl. unwind; value+TTL of a key from one engine call and shared collections materialised once; no read result dropped in the loader, unknown opcodes refused; file-tainted lengths never reach unbounded allocation/arithmetic.",
+            "not_decided": "crash-point atomicity below the file-system API (fsync), exact interleavings with commands beyond the single-acquisition clause."},
+    "C11": {"decided": "Write-set agreement: every dispatcher arm that can reach a dataset mutator is in is_write_command; every mutator call site reachable from the event loop lies under the append hook (gated, before dispatch); record carries the database; no random-outcome command appended verbatim; exactly one Array frame per command, flushed under every fsync policy.",
+            "not_decided": "that replay reproduces the dataset (the built-in replay is a stub); ordering between append and effect under failure."},
+    "C12": {"decided": "Sandbox list, blocked-command list (and nothing the executor implements escapes it), sibling-dispatcher parity (presence, effect class, storage primitive per catalogue command), EVALSHA = EVAL entry with caller's db and unmodified source, byte-safety of the Lua boundary, no event-loop re-entry from EVAL, failure atomicity of script-side commands.",
+            "not_decided": "reply equality after RESP->Lua conversion for every command and argument (two independent implementations; needs a differential run)."},
+    "C13": {"decided": "Wake path pops only under a still-Blocked test, delivers on the Some edge and pushes back on failed delivery; an empty pop re-registers the client; a woken waiter loses all registrations under the registry lock; every list-growing arm notifies once per element; registry indexes and connection state updated together; both removal sites clean up; blocked connections polled.",
+            "not_decided": "FIFO service order, promptness, timeout accuracy, multiset conservation over whole histories."},
+    "C14": {"decided": "Per-connection sets and global maps updated together with the same connection id, emptied entries removed; acknowledged count = channels.len()+patterns.len() after the update; PUBLISH replies with the length of the list it delivers to; no per-connection de-duplication; pattern receivers only under a match test; closing connections always removed with full clean-up.",
+            "not_decided": "per-publisher order across connections, glob semantics of patterns."},
+    "C15": {"decided": "Explicit-ID append dominated by the id > last_id test (refusal edge effect-free); only additions write the last-ID state (field and atomics together), trim/delete never; every entry-vector change has the matching length-counter update; dispatcher arms and failure atomicity.",
+            "not_decided": "range exactness (binary-search index arithmetic), auto-ID vs wall clock."},
+    "C16": {"decided": "Both pending indexes updated together; consumer pending_count and total_pending move with the PEL; XACK counts only on the Some edge of removal; deliveries advance the cursor on both sides of NOACK; creation start position initialises the cursor; refused group administration has no effect.",
+            "not_decided": "exactly-once delivery across consumers over histories, XPENDING bounds values, XCLAIM idle-time semantics."},
     "C17": {"decided": "Every privileged call on the per-frame path is dominated by the pass edge of the authentication gate and unreachable from its refuse edge; nothing privileged runs per frame outside process_frame; Authenticated is stored only in three justified contexts (full password equality, per connection); failed AUTH has no side effect.",
             "not_decided": "timing side channels of the password comparison."},
     "C18": {"decided": "Database-index flow (inferred through parameters, struct fields and closure captures from the engine's db position): no constant database at any use on the command path, a function's own database parameter is passed on, a callee never re-derives a database its caller already resolved; SELECT's store is bounded by database_count().",
             "not_decided": "aliasing of key spaces inside the engine (databases[db] indexing is by construction)."},
+    "C19": {"decided": "Every element added to a scan result lies under a successful MATCH test or under `no pattern`; expired keys and other-TYPE keys never enter SCAN's candidates; necessary condition of completeness under deletion (cursor must not be a position in a list rebuilt per call); cursor 0 at the end, monotone position.",
+            "not_decided": "completeness for a stable cursor design (iteration order of the table), COUNT as a hint, duplicates."},
+    "C20": {"decided": "Wire-tainted lengths never reach unbounded allocation, arithmetic or slicing; bounded nesting depth; serializer type byte <-> parser-built variant tables are inverse, unknown bytes are errors, null forms mirrored, no unwrap on the parse path; position advances only on Ok(Some); line-framed payloads CR/LF-filtered.",
+            "not_decided": "round-trip equality and chunking independence as values (e.g. the inline PING special case, Double formatting)."},
 }
 NOT_APPLICABLE = {}
